@@ -323,6 +323,22 @@ def address_cases(rng, fill):
     return cases
 
 
+def malformed_number_cases(rng, fill):
+    """fixed_point ::= integer [ '.' integer ] has no exponent: a duration, time-of-day or date-and-time number written
+    like a real (1.5E3) is not a literal of that kind; it is rejected, not read with the exponent thrown away."""
+    cases = []
+    exps = ["1.5E3", "1.0E-3", "2.5e+2", "1.0E1", "0.5E0", "1.5E", "3.0e-0"]
+    for _ in range(3 + fill // 16):
+        exps.append("%d.%dE%s%d" % (rng.randint(0, 99), rng.randint(0, 99), rng.choice(["", "+", "-"]), rng.randint(0, 9)))
+    for e in exps:
+        for unit in ("ms", "s", "m", "h", "d"):
+            cases.append(lit_case("dur", "exponent", "T#%s%s" % (e, unit), REJECT, None, vtype="TIME"))
+        cases.append(lit_case("dur", "exponent", "TIME#-%ss" % e, REJECT, None, vtype="TIME"))
+        cases.append(lit_case("tod", "exponent", "TOD#00:00:%s" % e, REJECT, None, vtype="TOD"))
+        cases.append(lit_case("dt", "exponent", "DT#2024-01-20-15:30:%s" % e, REJECT, None, vtype="DT"))
+    return cases
+
+
 def boolean_cases(rng, fill):
     """boolean_literal ::= [ 'BOOL#' ] ( '1' | '0' | 'TRUE' | 'FALSE' ): nothing else is a Boolean value."""
     cases = []
@@ -343,7 +359,7 @@ def boolean_cases(rng, fill):
 
 def all_cases(rng, fill):
     return (integer_cases(rng, fill) + real_cases(rng, fill) + duration_cases(rng, fill) + datetime_cases(rng, fill) +
-            string_cases(rng, fill) + address_cases(rng, fill) + boolean_cases(rng, fill))
+            string_cases(rng, fill) + address_cases(rng, fill) + boolean_cases(rng, fill) + malformed_number_cases(rng, fill))
 
 
 # ---------------------------------------------------------------- observation and verdict
